@@ -177,7 +177,40 @@ def probe(L, AD, clock):
     return runs, sorted(reads)
 
 
-def render(recognised, why, site_list, runs, reads):
+def probe_made_inside(L, clock):
+    """what the library itself puts into the wastes it builds: `Waste`'s default `created_at`, and the one item each
+    convenience method (`ingest_error`, `ingest_sensitive`) queues - MEASURED on the real class"""
+    def stamp(w):
+        c = getattr(w, "created_at", None)
+        if not isinstance(c, _dt.datetime):
+            return None
+        if c.tzinfo is not None:
+            return ".aware"
+        d = (c - clock.now()) // _dt.timedelta(microseconds=1)
+        return ".now" if d == 0 else f"(.at ({d}))"
+
+    def queued_as_calls(lys):
+        out = []
+        for w in list(lys._queue):
+            ty = TY.get(getattr(getattr(w, "waste_type", None), "value", None))
+            st = stamp(w)
+            out.append(f".ingest {ty} {st}" if ty and st else
+                       f'.other {lean_str("a queued item that is not a Waste with a datetime created_at")}')
+        return out
+    saved = clock.us
+    try:
+        clock.us = 555_555_555
+        default = stamp(L.Waste(L.WasteType.EXPIRED_CACHE, None))
+        a = L.Lysosome(max_queue_size=1000, auto_digest_threshold=1000, silent=True)
+        a.ingest_error(ValueError("probe"), source="probe", context={"k": 1})
+        b = L.Lysosome(max_queue_size=1000, auto_digest_threshold=1000, silent=True)
+        b.ingest_sensitive({"secret": 1}, source="probe")
+        return default, queued_as_calls(a), queued_as_calls(b)
+    finally:
+        clock.us = saved
+
+
+def render(recognised, why, site_list, runs, reads, inside=(None, [], [])):
     def b(x):
         return "true" if x else "false"
     out = ["import Operon.Model.LysosomeClients",
@@ -194,6 +227,11 @@ def render(recognised, why, site_list, runs, reads):
             "def probeRuns : List ProbeRun := ["
             + ",\n  ".join(f"⟨{lean_str(s)}, {b(p)}, {b(r)}, [{', '.join(c)}]⟩" for s, p, r, c in runs) + "]", "",
             "def reads : List String := [" + ", ".join(lean_str(x) for x in reads) + "]", "",
+            "/-- `created_at` of a `Waste` built without one (the dataclass default), measured -/",
+            f"def wasteDefaultStamp : Option Stamp := {('some ' + inside[0]) if inside[0] else 'none'}", "",
+            "/-- what one `ingest_error(...)` / one `ingest_sensitive(...)` call leaves in the queue of a fresh lysosome, measured -/",
+            f"def ingestErrorMakes : List ClientCall := [{', '.join(inside[1])}]",
+            f"def ingestSensitiveMakes : List ClientCall := [{', '.join(inside[2])}]", "",
             "end Operon.Gen.LysosomeClients", ""]
     return "\n".join(out)
 
@@ -202,8 +240,9 @@ def extract(repo, L, AD, clock):
     try:
         site_list = sites(Path(repo))
         runs, reads = probe(L, AD, clock)
-        text = render(True, "", site_list, runs, reads)
-        facts = {"recognised": True, "sites": site_list, "runs": runs, "reads": reads}
+        inside = probe_made_inside(L, clock)
+        text = render(True, "", site_list, runs, reads, inside)
+        facts = {"recognised": True, "sites": site_list, "runs": runs, "reads": reads, "inside": inside}
     except Exception as e:   # noqa: fail closed
         why = f"{type(e).__name__}: {e}".replace("\n", " ")[:200]
         text = render(False, why, [], [], [])
